@@ -196,6 +196,10 @@ func main() {
 	fx.GenClientKeys(ks, fx.Alpha)
 	fx.GenClientKeys(ks, fx.Bravo)
 	thorough := r.Thorough()
+	if r.Replay != "" && mysqlReplay(r, ks) { // MySQL replay files (part "mysql...", see mysql.go)
+		os.RemoveAll(dir)
+		r.Finish()
+	}
 
 	var cfgs []cfgT
 	envs := []string{"acrablock"}
@@ -225,6 +229,7 @@ func main() {
 		}
 		checkConfig(r, ks, c, thorough)
 	}
+	mysqlPart(r, ks, thorough) // MySQL half (mysql.go); last: it switches the process-wide SQL dialect
 	r.Rule("state = one column configuration (type x envelope x policy x default value, incl. those the validator must reject); transitions = statements executed through the real proxy (writes by literal / text parameter / binary parameter, reads in simple and extended protocol with text and binary results and Describe) by the owner, by two kinds of non-owner and by the owner on damaged values; distinct_nontrivial = distinct (type, policy, reader, statement kind, format, outcome class)")
 	r.Assume("Themis replaced by the pure-Go stand-in", "database end is the reference database /verif/mc/sess/pgdb.go", "PostgreSQL proxy only", "policy 'ciphertext' is read as: the stored bytes, either raw or in the database's own wire encoding of the stored column")
 	r.Finish()
